@@ -9,7 +9,7 @@ for P in "$@"; do
     cp $d/patch.diff /tmp/wt_$P/_mutants/$M.diff
     CHECKS=$(python3 -c "
 import json;m=json.load(open('$d/meta.json'));cs=[x['check'] for x in m.get('detected_by',[])] or ['$P']
-extra={'C08-m4':['C02'],'C13-m4':['C08'],'C11-m2':['C04'],'C17-m4':['C02'],'C02-m6':['C03'],'C13-m5':['C08'],'C13-m6':['C08'],'C10-m7':['C07','C02'],'C10-m8':['C06'],'C13-m8':['C16'],'C17-m7':['C16'],'C18-m8':['C15'],'C02-ma':['C20'],'C08-ma':['C09'],'C20-m9':['C09'],'C12-ma':['C19'],'C13-m9':['C08'],'C13-ma':['C02'],'C17-m9':['C16'],'C18-ma':['C05','C07'],'C10-m9':['C07'],'C06-ma':['C10'],'C02-mb':['C09'],'C10-mc':['C05']}.get('$P-$M',[])
+extra={'C08-m4':['C02'],'C13-m4':['C08'],'C11-m2':['C04'],'C17-m4':['C02'],'C02-m6':['C03'],'C13-m5':['C08'],'C13-m6':['C08'],'C10-m7':['C07','C02'],'C10-m8':['C06'],'C13-m8':['C16'],'C17-m7':['C16'],'C18-m8':['C15'],'C02-ma':['C20'],'C08-ma':['C09'],'C20-m9':['C09'],'C12-ma':['C19'],'C13-m9':['C08'],'C13-ma':['C02'],'C17-m9':['C16'],'C18-ma':['C05','C07'],'C10-m9':['C07'],'C06-ma':['C10'],'C02-mb':['C09'],'C10-mc':['C05'],'C08-mb':['C20'],'C13-mb':['C09'],'C13-mc':['C10'],'C17-mb':['C16']}.get('$P-$M',[])
 print(' '.join(dict.fromkeys(['$P']+cs+extra)))")
     for C in $CHECKS; do tools/run_mutant.sh $P $M $C; done
     N=$(python3 -c "import json;print(json.load(open('$d/meta.json')).get('needs_to_manifest','?'))")
